@@ -35,4 +35,15 @@ def ValidAll (cap : Nat) : List Nat → List Op → Bool
   | _, [] => true
   | cs, op :: ops => Pre cap cs op && ValidAll cap (Spec.stepClamped cap cs op) ops
 
+/-! unfolding lemmas (stated here so that the equation lemmas of the definitions belong to this module) -/
+theorem fitsAll_cons (cap : Nat) (cs : List Nat) (op : Op) (ops : List Op) :
+    FitsAll cap cs (op :: ops) = (Pre cap cs op && Spec.fits cap cs op && FitsAll cap (Spec.step cs op).1 ops) := by
+  simp only [FitsAll]
+theorem validAll_cons (cap : Nat) (cs : List Nat) (op : Op) (ops : List Op) :
+    ValidAll cap cs (op :: ops) = (Pre cap cs op && ValidAll cap (Spec.stepClamped cap cs op) ops) := by
+  simp only [ValidAll]
+theorem run_cons (s : Str) (op : Op) (ops : List Op) :
+    run s (op :: ops) = (do let r ← s.step op; run r.1 ops) := by
+  simp only [run]
+
 end Tetl.C04.Props
